@@ -181,7 +181,8 @@ type probeRun struct {
 	ref     map[*ajson.Node]*Ref
 	buffers []guarded
 	hist    []string
-	failed  bool
+	failed  bool            // a panic: stop the history
+	failedP map[string]bool // properties that already reported a failure in this history (first one only)
 }
 
 type guarded struct {
@@ -190,10 +191,18 @@ type guarded struct {
 }
 
 func (p *probeRun) fail(prop, probe, what, exp, act string) {
-	if p.failed {
+	// one report per property and history; the history goes on, because a structural defect (C06) usually turns into a
+	// wrong value (C05), a stale path (C16) or a wrong anchor (C19) only some steps later
+	if p.failedP == nil {
+		p.failedP = map[string]bool{}
+	}
+	if p.failedP[prop] {
 		return
 	}
-	p.failed = true
+	p.failedP[prop] = true
+	if prop == "C11" {
+		p.failed = true
+	}
 	p.o.Fail(prop, probe, what, strings.Join(p.hist, "\n"), exp, act)
 }
 
